@@ -38,6 +38,7 @@ var (
 	budget   = flag.Int("budget", 0, "override wall-clock budget in seconds")
 	only     = flag.String("only", "", "only units whose name contains this")
 	cpuprof  = flag.String("cpuprofile", "", "worker mode: write a CPU profile")
+	stop1    = flag.Bool("stop-at-first", false, "do not start further units once a unit has reported a violation (detection runs; the evidence then says exhaustive:false)")
 )
 
 func main() {
@@ -229,13 +230,17 @@ func root(m *harness.PropMeta, units []harness.Unit) int {
 	results := make([]*harness.UnitResult, len(units))
 	errs := make([]string, len(units))
 	skipped := 0
+	sawViolation := false
 	var mu sync.Mutex
 	var wg sync.WaitGroup
 	sem := make(chan struct{}, *jobs)
 	self, _ := os.Executable()
 	for _, i := range order {
 		sem <- struct{}{}
-		if time.Now().After(dl) {
+		mu.Lock()
+		stopNow := *stop1 && sawViolation
+		mu.Unlock()
+		if time.Now().After(dl) || stopNow {
 			<-sem
 			mu.Lock()
 			skipped++
@@ -278,6 +283,11 @@ func root(m *harness.PropMeta, units []harness.Unit) int {
 					r.Info["race_report"] = tail(firstRace(stderr.String()), 6000)
 				}
 				results[i] = &r
+				if len(r.Violations) > 0 {
+					mu.Lock()
+					sawViolation = true
+					mu.Unlock()
+				}
 			case <-time.After(grace):
 				cmd.Process.Kill()
 				<-done
